@@ -106,6 +106,19 @@ Fixpoint mentions (x : ident) (e : cexpr) : bool :=
 
 Definition s_t := bs "t".
 
+(* "item", "_item", "__item", ...: the names the generic membership loop may pick *)
+Fixpoint item_like (x : bytes) : bool :=
+  bytes_eqb x s_item || match x with c :: r => Byte.eqb c x5f && item_like r | [] => false end.
+
+(* element and collection types of `x in <list-valued expression>` *)
+Definition in_elem_ok (ta tb : sty) : bool :=
+  (is_strlike ta && is_strlike tb) ||
+  match ta, tb with
+  | SInt k, SInt k' => ikind_eqb k k'
+  | SKInt _ z, SInt k => not_dur k && in_kind k z
+  | _, _ => false
+  end.
+
 Record tenv := { te_fields : list (ident * fty); te_fname : ident; te_vars : list (ident * sty) }.
 
 Definition bind_var (G : tenv) (x : ident) (t : sty) : tenv :=
@@ -195,15 +208,11 @@ Fixpoint cty (G : tenv) (e : cexpr) : option sty :=
                    | _ => None
                    end
           | Some ta, _ =>
-              if mentions s_item a then None else
+              (* membership in a list-valued expression: the emitted loop declares a fresh variable item/_item/...;
+                 no variable in scope may carry such a name *)
+              if mentions s_item a || existsb (fun xv => item_like (fst xv)) (te_vars G) then None else
               match cty G b with
-              | Some (SList tb) =>
-                  if (is_strlike ta && is_strlike tb) then Some SBool
-                  else match ta, tb with
-                       | SInt k, SInt k' => if ikind_eqb k k' then Some SBool else None
-                       | SKInt _ z, SInt k => if not_dur k && in_kind k z then Some SBool else None
-                       | _, _ => None
-                       end
+              | Some (SList tb) => if in_elem_ok ta tb then Some SBool else None
               | _ => None
               end
           | None, _ => None
